@@ -1057,7 +1057,9 @@ class Exec:
                     continue
                 if k == 'call':
                     results = self.call(st, fr, t)
-                    if t[4] is None:
+                    tgt_blk = fr.func.blocks.get(t[4]) if t[4] is not None else None
+                    if t[4] is None or (tgt_blk is not None and tgt_blk.cleanup):
+                        # `-> bbN` with bbN a cleanup block is the unwind edge of a call that never returns
                         # diverging call
                         for (s2, v, kind, msg) in results:
                             if kind == 'panic':
